@@ -24,6 +24,11 @@ func (w *world) apply(req *request, d *delivery) {
 			return
 		}
 	}
+	switch req.kind {
+	case kIO, kProbeFH, kRenew, kLockT, kRemove:
+	default:
+		w.modelVersion++
+	}
 	if c.minor == 1 && req.sess != nil {
 		if !w.applySequence(req, d) {
 			return
